@@ -154,12 +154,12 @@ func loadKnown() KnownFindings {
 }
 
 type PropConfig struct {
-	Level       string   `json:"level"`
-	Lemmas      []string `json:"lemmas"`
-	ExtraFuncs  []string `json:"extra_funcs"`
-	NotDecided  []string `json:"clauses_not_decided"`
-	Bounded     []string `json:"bounded_clauses"`
-	Note        string   `json:"note"`
+	Level      string   `json:"level"`
+	Lemmas     []string `json:"lemmas"`
+	ExtraFuncs []string `json:"extra_funcs"`
+	NotDecided []string `json:"clauses_not_decided"`
+	Bounded    []string `json:"bounded_clauses"`
+	Note       string   `json:"note"`
 }
 
 func loadProps() map[string]PropConfig {
